@@ -80,7 +80,7 @@ macro "typed_nodup" h:ident : tactic => `(tactic| (
     | apply nodup_typed_setCurveTypeR
     | apply nodup_typed_setCurveTypeOR
     | simp only [addUsage_typed, addUsageO_typed, removeUsageT_typed, removeUsageO_typed, popUsageKey_typed, setUsage_typed,
-        bumpUid_typed, dropControls_typed])))
+        bumpUid_typed, dropControls_typed, removeUserAll_typed, removeUserAllO_typed])))
 
 /-- `Clause.nodup` of a state built from `s` by the primitives, from `Clause.nodup s` -/
 macro "reg_nodup" h:ident : tactic => `(tactic| (
@@ -127,6 +127,18 @@ theorem addCurveR_nodup (s : Reg) (n : Name) (t : Option CurveType) (h : Clause.
 theorem addSourceR_nodup (s : Reg) (n node : Name) (pat : Option Name) (h : Clause.nodup s) :
     Clause.nodup (addSourceR s n node pat) := by
   unfold addSourceR; reg_nodup h
+theorem addDemandR_nodup (s : Reg) (n : Name) (p : Option Name) (i : NodeInfo) (h : Clause.nodup s) : Clause.nodup (addDemandR s n p i) := by
+  unfold addDemandR; reg_nodup h
+theorem delDemandR_nodup (s : Reg) (n : Name) (idx : Nat) (i : NodeInfo) (h : Clause.nodup s) : Clause.nodup (delDemandR s n idx i) := by
+  unfold delDemandR; reg_nodup h
+theorem removeFireR_nodup (s : Reg) (n p : Name) (i : NodeInfo) (h : Clause.nodup s) : Clause.nodup (removeFireR s n p i) := by
+  unfold removeFireR; reg_nodup h
+theorem addFireR_nodup (s : Reg) (n p : Name) (i : NodeInfo) (hp : p ∉ s.patterns) (h : Clause.nodup s) : Clause.nodup (addFireR s n p i) := by
+  unfold addFireR
+  rw [nodup_iff] at *
+  obtain ⟨h1, h2, h3, h4, h5, h6⟩ := h
+  refine ⟨AL.nodup_keys_set _ _ _ h1, h2, List.Nodup.append h3 (List.nodup_singleton p) (by simpa using hp), h4, h5, ?_⟩
+  typed_nodup h6
 theorem delNodeR_nodup (s : Reg) (key : Name) (i : NodeInfo) (h : Clause.nodup s) : Clause.nodup (delNodeR s key i) := by
   unfold delNodeR; reg_nodup h
 theorem delLinkR_nodup (s : Reg) (key : Name) (i : LinkInfo) (h : Clause.nodup s) : Clause.nodup (delLinkR s key i) := by
@@ -175,8 +187,17 @@ theorem removeUsageO_usage_ne (s : Reg) (r r' : RegId) (k : Option Name) (u : Us
 theorem popUsageKey_usage_ne (s : Reg) (r r' : RegId) (k : Name) (h : r' ≠ r) : (popUsageKey s r k).usage r' = s.usage r' := by
   unfold popUsageKey; rw [setUsage_usage, if_neg h]
 
+theorem removeUserAll_usage_ne (s : Reg) (r r' : RegId) (u : User) (h : r' ≠ r) : (removeUserAll s r u).usage r' = s.usage r' := by
+  unfold removeUserAll
+  exact foldl_removeUsageT_frame (fun x => x.usage r') (fun a k => removeUsageT_usage_ne a r r' k u h) _ s
+theorem removeUserAllO_usage_ne (s : Reg) (r r' : RegId) (u : Option User) (h : r' ≠ r) :
+    (removeUserAllO s r u).usage r' = s.usage r' := by
+  cases u with
+  | none => rfl
+  | some u => exact removeUserAll_usage_ne s r r' u h
+
 macro "reg_obj" : tactic => `(tactic| simp (disch := decide) only [addUsage_usage_ne, addUsageO_usage_ne, removeUsageT_usage_ne,
-  removeUsageO_usage_ne, popUsageKey_usage_ne, typedAdd_usage, typedDiscard_usage, typedAddAll_usage, typedDiscardAll_usage,
+  removeUsageO_usage_ne, popUsageKey_usage_ne, removeUserAll_usage_ne, removeUserAllO_usage_ne, typedAdd_usage, typedDiscard_usage, typedAddAll_usage, typedDiscardAll_usage,
   setNode_usage, setLink_usage, bumpUid_usage, dropControls_usage, setCurveTypeR_usage, setCurveTypeOR_usage])
 
 theorem addJunctionR_obj (s : Reg) (n : Name) (p : Option Name) : (addJunctionR s n p).usage .patternObj = s.usage .patternObj := by
@@ -197,6 +218,14 @@ theorem addCurveR_obj (s : Reg) (n : Name) (t : Option CurveType) : (addCurveR s
   unfold addCurveR; cases t <;> simp only [] <;> reg_obj
 theorem addSourceR_obj (s : Reg) (n node : Name) (pat : Option Name) : (addSourceR s n node pat).usage .patternObj = s.usage .patternObj := by
   unfold addSourceR; reg_obj
+theorem addDemandR_obj (s : Reg) (n : Name) (p : Option Name) (i : NodeInfo) : (addDemandR s n p i).usage .patternObj = s.usage .patternObj := by
+  unfold addDemandR; reg_obj
+theorem delDemandR_obj (s : Reg) (n : Name) (idx : Nat) (i : NodeInfo) : (delDemandR s n idx i).usage .patternObj = s.usage .patternObj := by
+  unfold delDemandR; reg_obj
+theorem addFireR_obj (s : Reg) (n p : Name) (i : NodeInfo) : (addFireR s n p i).usage .patternObj = s.usage .patternObj := by
+  unfold addFireR; reg_obj
+theorem removeFireR_obj (s : Reg) (n p : Name) (i : NodeInfo) : (removeFireR s n p i).usage .patternObj = s.usage .patternObj := by
+  unfold removeFireR; reg_obj
 theorem delNodeR_obj (s : Reg) (key : Name) (i : NodeInfo) : (delNodeR s key i).usage .patternObj = s.usage .patternObj := by
   unfold delNodeR; reg_obj
 theorem delLinkR_obj (s : Reg) (key : Name) (i : LinkInfo) : (delLinkR s key i).usage .patternObj = s.usage .patternObj := by
@@ -267,6 +296,18 @@ theorem nodup_ulook_popUsageKey (s : Reg) (r r' : RegId) (k k' : Name) (h : (ulo
     · exact h
   · simp only [hr, if_false]; exact h
 
+theorem nodup_ulook_foldl_removeUsageT (l : List Name) (s : Reg) (r r' : RegId) (k' : Name) (u : User)
+    (h : (ulook (s.usage r') k').Nodup) : (ulook ((l.foldl (fun acc k => removeUsageT acc r k u) s).usage r') k').Nodup := by
+  induction l generalizing s with
+  | nil => exact h
+  | cons k t ih => exact ih _ (nodup_ulook_removeUsageT s r r' k k' u h)
+
+theorem nodup_ulook_removeUserAllO (s : Reg) (r r' : RegId) (k' : Name) (u : Option User)
+    (h : (ulook (s.usage r') k').Nodup) : (ulook ((removeUserAllO s r u).usage r') k').Nodup := by
+  cases u with
+  | none => exact h
+  | some u => exact nodup_ulook_foldl_removeUsageT _ s r r' k' u h
+
 /-- close `UsageNodup (prim (prim ... s))` from `h : UsageNodup s` -/
 macro "usage_nodup" h:ident : tactic => `(tactic| (
   intro r k
@@ -276,12 +317,13 @@ macro "usage_nodup" h:ident : tactic => `(tactic| (
     | apply nodup_ulook_removeUsageT
     | apply nodup_ulook_removeUsageO
     | apply nodup_ulook_popUsageKey
+    | apply nodup_ulook_removeUserAllO
     | simp only [typedAdd_usage, typedDiscard_usage, typedAddAll_usage, typedDiscardAll_usage,
         setNode_usage, setLink_usage, bumpUid_usage, dropControls_usage, setCurveTypeR_usage, setCurveTypeOR_usage]
     | exact $h r k)))
 
 section
-attribute [local irreducible] addUsage addUsage? removeUsageT removeUsageO popUsageKey typedDiscardAll typedAddAll typedAdd
+attribute [local irreducible] addUsage addUsage? removeUsageT removeUsageO popUsageKey removeUserAllO removeUserAll typedDiscardAll typedAddAll typedAdd
   typedDiscard setLink setNode setCurveType setCurveType? bumpUid dropControls
 
 theorem addJunctionR_usageNodup (s : Reg) (n : Name) (p : Option Name) (h : UsageNodup s) : UsageNodup (addJunctionR s n p) := by
@@ -302,6 +344,14 @@ theorem addCurveR_usageNodup (s : Reg) (n : Name) (t : Option CurveType) (h : Us
   unfold addCurveR; cases t <;> simp only [] <;> usage_nodup h
 theorem addSourceR_usageNodup (s : Reg) (n node : Name) (pat : Option Name) (h : UsageNodup s) : UsageNodup (addSourceR s n node pat) := by
   unfold addSourceR; usage_nodup h
+theorem addDemandR_usageNodup (s : Reg) (n : Name) (p : Option Name) (i : NodeInfo) (h : UsageNodup s) : UsageNodup (addDemandR s n p i) := by
+  unfold addDemandR; usage_nodup h
+theorem delDemandR_usageNodup (s : Reg) (n : Name) (idx : Nat) (i : NodeInfo) (h : UsageNodup s) : UsageNodup (delDemandR s n idx i) := by
+  unfold delDemandR; usage_nodup h
+theorem addFireR_usageNodup (s : Reg) (n p : Name) (i : NodeInfo) (h : UsageNodup s) : UsageNodup (addFireR s n p i) := by
+  unfold addFireR; usage_nodup h
+theorem removeFireR_usageNodup (s : Reg) (n p : Name) (i : NodeInfo) (h : UsageNodup s) : UsageNodup (removeFireR s n p i) := by
+  unfold removeFireR; usage_nodup h
 theorem delNodeR_usageNodup (s : Reg) (key : Name) (i : NodeInfo) (h : UsageNodup s) : UsageNodup (delNodeR s key i) := by
   unfold delNodeR; usage_nodup h
 theorem delLinkR_usageNodup (s : Reg) (key : Name) (i : LinkInfo) (h : UsageNodup s) : UsageNodup (delLinkR s key i) := by
